@@ -644,6 +644,61 @@ pub fn run(tier: Tier) -> Report {
         rep.add_states(sizes.len() as u64);
         rep.extra("one_row_and_one_column_sequences_over_the_dimension_lattice", json!(sizes.len()));
     }
+    // delivery in two pieces: I, P, I (Sorenson also I, D, P) sequences through one reader over a
+    // source that first holds only the first k bytes of the concatenation, for every k; the call that
+    // runs dry is repeated once the rest has arrived and everything must come out as in one piece
+    // (the break may fall inside a start code, a header field, a macroblock or the padding)
+    {
+        let mut seqs: Vec<(Mode, String, Vec<Vec<u8>>)> = vec![];
+        for mode in [Mode::Sorenson, Mode::StdCustom] {
+            for &(w, h) in &[(16u16, 16u16), (32, 16)] {
+                let types: &[&[u8]] = if mode == Mode::Sorenson { &[&[0, 1, 0], &[0, 2, 1]] } else { &[&[0, 1, 0]] };
+                for tys in types {
+                    let pics: Vec<Vec<u8>> = tys
+                        .iter()
+                        .enumerate()
+                        .map(|(k, &pt)| {
+                            let hd = hdr(mode, w, h, pt, 3 + k as u8, k % 3, 0);
+                            encode_bytes(&Pic { mbs: body(&hd, 1, k + 1), hdr: hd })
+                        })
+                        .collect();
+                    seqs.push((mode, format!("{mode:?} {w}x{h} types {tys:?}"), pics));
+                }
+            }
+        }
+        let n_two = std::sync::atomic::AtomicU64::new(0);
+        let n_early = std::sync::atomic::AtomicU64::new(0);
+        seqs.par_iter().for_each(|(mode, name, pics)| {
+            let opts = if *mode == Mode::Sorenson { 1 } else { 0 };
+            let concat: Vec<u8> = pics.iter().flatten().copied().collect();
+            // one-piece delivery
+            let mut st = H263State::new(options_from_bits(opts));
+            let mut rd = H263Reader::from_source(&concat[..]);
+            let mut expect = vec![];
+            for i in 0..pics.len() {
+                if !decode_with(&mut st, &mut rd).is_ok() {
+                    rep.violation("C15/machinery-two-piece-base-sequence", format!("{name}: picture {i} does not decode in one piece"), json!({"kind": "machinery"}));
+                    return;
+                }
+                expect.push(last_snap(&st));
+            }
+            for split in 1..concat.len() {
+                n_two.fetch_add(1, std::sync::atomic::Ordering::Relaxed);
+                match deliver_in_two(opts, &[], &concat, split, &expect) {
+                    Ok(true) => {}
+                    Ok(false) => {
+                        n_early.fetch_add(1, std::sync::atomic::Ordering::Relaxed);
+                    }
+                    Err(e) => rep.violation("C15/delivery-in-two-pieces", format!("{name}: {e}"), json!({"kind": "stream-two-pieces", "options": opts, "concatenated": crate::bits::hex(&concat), "pictures": pics.len(), "split": split, "error": e})),
+                }
+            }
+        });
+        let n = n_two.load(std::sync::atomic::Ordering::Relaxed);
+        rep.add_transitions(n);
+        rep.add_states(n);
+        rep.extra("two_piece_deliveries", json!(n));
+        rep.extra("two_piece_deliveries_accepted_early", json!(n_early.load(std::sync::atomic::Ordering::Relaxed)));
+    }
     rep.extra("sequences", json!(nseq));
     rep.extra("letters_by_padding_bits", json!(pads));
     if pads.iter().any(|p| *p == 0) {
@@ -657,6 +712,21 @@ pub fn run(tier: Tier) -> Report {
 }
 
 pub fn replay(case: &serde_json::Value) {
+    if case["kind"] == "stream-two-pieces" {
+        let opts = case["options"].as_u64().unwrap_or(1) as u8;
+        let concat = crate::bits::unhex(case["concatenated"].as_str().unwrap_or(""));
+        let n = case["pictures"].as_u64().unwrap_or(1) as usize;
+        let split = case["split"].as_u64().unwrap_or(1) as usize;
+        let mut st = H263State::new(options_from_bits(opts));
+        let mut rd = H263Reader::from_source(&concat[..]);
+        let mut expect = vec![];
+        for _ in 0..n {
+            let _ = decode_with(&mut st, &mut rd);
+            expect.push(last_snap(&st));
+        }
+        println!("{n} pictures, {} bytes, first delivery {split} bytes, retry after the rest arrived -> {:?}", concat.len(), deliver_in_two(opts, &[], &concat, split, &expect));
+        return;
+    }
     let opts = case["options"].as_u64().unwrap_or(1) as u8;
     let mut st = H263State::new(options_from_bits(opts));
     for s in case["init"].as_array().unwrap() {
